@@ -6,8 +6,19 @@ use minicbor::{data::Type, decode, encode, Decode, Decoder, Encode, Encoder};
 #[derive(Debug, Clone, PartialEq)]
 pub enum V { U(u64), B(Vec<u8>), X(Vec<u8>) }
 
+thread_local! {
+    /// calls of `V::encode` / `V::decode` since the last reset: a frame writer encodes a value once per `write`, a reader decodes a
+    /// payload once per frame (an impl with side effects, or one that is merely expensive, must not run twice)
+    pub static ENC_CALLS: std::cell::Cell<usize> = std::cell::Cell::new(0);
+    pub static DEC_CALLS: std::cell::Cell<usize> = std::cell::Cell::new(0);
+}
+pub fn calls_reset() { ENC_CALLS.with(|c| c.set(0)); DEC_CALLS.with(|c| c.set(0)); }
+pub fn enc_calls() -> usize { ENC_CALLS.with(|c| c.get()) }
+pub fn dec_calls() -> usize { DEC_CALLS.with(|c| c.get()) }
+
 impl<C> Encode<C> for V {
     fn encode<W: encode::Write>(&self, e: &mut Encoder<W>, _: &mut C) -> Result<(), encode::Error<W::Error>> {
+        ENC_CALLS.with(|c| c.set(c.get() + 1));
         match self {
             V::U(n) => e.u64(*n)?.ok(),
             V::B(b) => e.bytes(b)?.ok(),
@@ -21,6 +32,7 @@ impl<C> Encode<C> for V {
 
 impl<'b, C> Decode<'b, C> for V {
     fn decode(d: &mut Decoder<'b>, _: &mut C) -> Result<Self, decode::Error> {
+        DEC_CALLS.with(|c| c.set(c.get() + 1));
         match d.datatype()? {
             Type::U8 | Type::U16 | Type::U32 | Type::U64 => d.u64().map(V::U),
             Type::Bytes => d.bytes().map(|b| V::B(b.to_vec())),
